@@ -277,9 +277,11 @@ class ServerSet(object):
     ChildrenWatch(self._zk, self._zk_path, self._on_set_changed)
 
   def _send_all_removed(self):
-    for k in self._members.keys():
-      member = self._members.pop(k)
-      self._on_leave(member)
+    # Forget the known children (the path may be re-created with the same
+    # names) and report them as removed through the notification worker, which
+    # serializes this with pending notifications and guards the callbacks.
+    removed_nodes, self._nodes = self._nodes, set()
+    self._notification_queue.put((set(), removed_nodes))
 
   def _notification_worker(self):
     """'Atomically' raise notifications for join / leave.
